@@ -1,10 +1,10 @@
 import subprocess, sys, os, json, collections
 from concurrent.futures import ThreadPoolExecutor
 lo, hi, n = int(sys.argv[1]), int(sys.argv[2]), 16
-env = dict(os.environ, PYTHONPATH='/repo', TF_CPP_MIN_LOG_LEVEL='3')
+REPO = os.environ.get('AEQ_REPO', '/repo'); env = dict(os.environ, PYTHONPATH=REPO, TF_CPP_MIN_LOG_LEVEL='3')
 def sh(i):
     a = lo + (hi - lo) * i // n; b = lo + (hi - lo) * (i + 1) // n
-    p = subprocess.run(['/venv/bin/python', '/verif/design_probes/drift_corr_child.py', str(a), str(b)], capture_output=True, text=True, env=env, cwd='/repo')
+    p = subprocess.run(['/venv/bin/python', '/verif/design_probes/drift_corr_child.py', str(a), str(b)], capture_output=True, text=True, env=env, cwd=REPO)
     if p.returncode: return {'stats': {f'ABORT {p.returncode}': 1}, 'ex': {}}
     return json.loads(p.stdout.strip().splitlines()[-1])
 stats = collections.Counter(); ex = {}
